@@ -133,9 +133,101 @@ impl Prop for Slicing {
     }
 }
 
+
+#[derive(Clone, Debug, Serialize, Deserialize)]
+pub struct TaskSliceCase {
+    /// producers: (busy work per message, messages, busy work main does before spawning it)
+    pub producers: Vec<(u8, u8, u8)>,
+    /// a relay task between the producers' channel and main
+    pub relay: bool,
+    /// main prints every message as it arrives (a host call per message) or collects and prints at the end
+    pub print_each: bool,
+    pub budgets: Vec<Vec<u32>>,
+}
+
+pub fn task_slice_program(c: &TaskSliceCase) -> (String, usize) {
+    let mut src = String::from("let ch: channel<int> = channel()\nlet out: channel<int> = channel()\n");
+    let total: usize = c.producers.iter().map(|p| p.1.max(1) as usize).sum();
+    if c.relay {
+        src.push_str(&format!("task {{\n  for i in {total} {{\n    let v = ch.read()\n    out.write(v * 10)\n  }}\n}}\n"));
+    }
+    for (w, (work, msgs, gap)) in c.producers.iter().enumerate() {
+        if *gap > 0 {
+            src.push_str(&format!("var gap{w} = 0\nwhile gap{w} < {gap} {{\n  gap{w} += 1\n}}\n"));
+        }
+        src.push_str(&format!("task {{\n  for j in {} {{\n    var busy = 0\n    while busy < {work} {{\n      busy += 1\n    }}\n    ch.write({w} * 100 + j)\n  }}\n}}\n", msgs.max(&1)));
+    }
+    let from = if c.relay { "out" } else { "ch" };
+    if c.print_each {
+        src.push_str(&format!("for i in {total} {{\n  println({from}.read())\n}}\n"));
+    } else {
+        src.push_str(&format!("let got: array<int> = []\nfor i in {total} {{\n  got.push({from}.read())\n}}\nprintln(got)\n"));
+    }
+    src.push_str("println(\"end\")\n");
+    (src, total)
+}
+
+/// second clause of the property: tasks that communicate only through channels, one printing task
+pub struct TaskSlicing;
+
+impl Prop for TaskSlicing {
+    type Case = TaskSliceCase;
+    fn name(&self) -> &'static str {
+        "task_slicing"
+    }
+    fn rule(&self) -> &'static str {
+        "one case = 2..4 producer tasks (spawned after generated amounts of work in main, each doing a generated amount of work per message) writing 1..5 messages each into one channel, optionally through a relay task, with main as the only printing task (per message, or once at the end); baseline = budget 1; run again at budgets 2, 3, 5, 7, 8, 9, 16, 50, 100, 101, 1000, 10^6 and generated budget sequences; printed output (which includes the arrival order of the producers' messages) must be identical and every run must finish; non-trivial = >= 2 producers with different work per message and >= 4 messages in total; distinct by case"
+    }
+    fn n_cases(&self, tier: Tier) -> u32 {
+        tier.pick(500, 8000)
+    }
+    fn strategy(&self, _tier: Tier, _f: &Findings) -> BoxedStrategy<Self::Case> {
+        let b = prop_oneof![3 => 1u32..12, 2 => 1u32..200, 1 => 1u32..100_000];
+        (proptest::collection::vec((0u8..25, 1u8..6, 0u8..30), 2..5), any::<bool>(), any::<bool>(), proptest::collection::vec(proptest::collection::vec(b, 1..5), 1..4))
+            .prop_map(|(producers, relay, print_each, budgets)| TaskSliceCase { producers, relay, print_each, budgets })
+            .boxed()
+    }
+    fn judge(&self, c: &Self::Case, env: &mut Env) -> Verdict {
+        let (src, total) = task_slice_program(c);
+        let opts = RunOpts { max_steps: 3_000_000, max_calls: 4_000_000, budgets: vec![1], ..RunOpts::default() };
+        let mut seqs: Vec<Vec<u32>> = [2u32, 3, 5, 7, 8, 9, 16, 50, 100, 101, 1000, 1_000_000].iter().map(|b| vec![*b]).collect();
+        seqs.extend(c.budgets.iter().cloned());
+        let mut variants = vec![Variant { budgets: vec![1], ..Variant::sel(0) }];
+        variants.extend(seqs.iter().map(|s| Variant { budgets: s.clone(), ..Variant::sel(0) }));
+        let outs = try_exec!(env.run_var(&single(src.clone()), "main.abra", &opts, &variants));
+        let mut st = CaseStats::one();
+        st.evals = outs.len() as u64;
+        let base = &outs[0];
+        for (r, v) in outs.iter().zip(variants.iter()) {
+            if let Some(f) = crash_failure(r) {
+                return Verdict::Fail(f.feat(format!("budgets:{:?}", v.budgets)).detail(json!({"src": src})));
+            }
+            if !r.compile.is_ok() || !matches!(r.end, RunEnd::Done) {
+                return Verdict::Fail(
+                    Failure::new("VerdictMismatch", format!("task program did not finish at budgets {:?}: {}", v.budgets, format!("{:?} / {:?}", r.compile, r.end).chars().take(200).collect::<String>())).detail(json!({"src": src})),
+                );
+            }
+            if r.stdout != base.stdout {
+                return Verdict::Fail(
+                    Failure::new("OutcomeMismatch", format!("printed output of a task program depends on slicing (budgets {:?} vs budget 1)", v.budgets))
+                        .feat(if c.relay { "relay" } else { "direct" })
+                        .detail(json!({"src": src, "budget_1": base.stdout, "sliced": r.stdout, "budgets": v.budgets})),
+                );
+            }
+        }
+        let works: std::collections::BTreeSet<u8> = c.producers.iter().map(|p| p.0).collect();
+        if works.len() >= 2 && total >= 4 {
+            st.nt(&src);
+            st.sample = Some(json!({"src": src, "output": base.stdout, "schedules": variants.len()}));
+        }
+        Verdict::Pass(st)
+    }
+}
+
 pub fn run(ctx: &mut Ctx) {
     ctx.assume("the baseline is the same program run with one budget of 10^6 steps");
-    ctx.assume("task programs (KPN shape) are covered by the sub-property kpn_slicing when present");
+    ctx.assume("for task programs the reference run is the one at budget 1 (the granularity the pinned tests use)");
     ctx.prop(&crate::g::srccase::SrcProp { name: "program" });
     ctx.prop(&Slicing);
+    ctx.prop(&TaskSlicing);
 }
